@@ -43,10 +43,10 @@ func runC03(c *Ctx) []Violation {
 	var w *world.World
 	if c.T.Chance("c03.numeric-filter", 1, 12) {
 		// own scenario family of an open known finding: a target filter that compares with a number
-		w = world.Generate(c.T, world.GenOpts{NumericFilter: true, Encodings: true})
+		w = genWorld(c, world.GenOpts{NumericFilter: true, Encodings: true})
 		c.Count("world.family.numeric-filter", 1)
 	} else {
-		w = pickWorld(c, worldOpts{CorpusWeight: 2, GenWeight: 3, Encodings: true})
+		w = pickWorld(c, worldOpts{CorpusWeight: 2, GenWeight: 3, Encodings: true, Pathological: true})
 	}
 	env := baseEnv(c)
 	ww := w.Clone()
